@@ -50,6 +50,7 @@ class T:
         self.results = []
         self.covers = 0
         self.solver_name = None
+        self.no_intercept = False
 
     def full(self, label):
         return f'{self.prop}/{self.task.name}/{label}'
